@@ -1,7 +1,9 @@
 package datasource
 
 import (
+	"encoding/json"
 	"errors"
+	"io"
 
 	"github.com/alibaba/sentinel-golang/core/circuitbreaker"
 	"github.com/alibaba/sentinel-golang/core/flow"
@@ -18,7 +20,7 @@ import (
 // specific-item parsing, the handler's de-duplication, the updaters and the rule managers.
 
 type verifPOut struct {
-	kind int // 0 decode error, 1 decoded list
+	kind int // 0 decode error, 1 decoded list, 2 a complete list followed by more bytes (not a JSON document: undecodable)
 	iso  []*isolation.Rule
 	flw  []*flow.Rule
 	cb   []*circuitbreaker.Rule
@@ -30,9 +32,19 @@ var verifPOuts [2]verifPOut
 
 var verifPRes = []string{"A", "B", ""}
 
-func verifUnmarshal(src []byte, v interface{}) error {
+// json.Unmarshal: the whole input must be one JSON value.
+func verifUnmarshal(src []byte, v interface{}) error { return verifFill(src, v, false) }
+
+// json.NewDecoder(r).Decode: decodes the next value of the stream and leaves what follows unread.
+var verifCurSrc []byte // the payload being handled (the model does not read through the io.Reader)
+
+func verifNewDecoder(r io.Reader) *json.Decoder { return new(json.Decoder) }
+
+func verifDecode(d *json.Decoder, v interface{}) error { return verifFill(verifCurSrc, v, true) }
+
+func verifFill(src []byte, v interface{}, stream bool) error {
 	o := verifPOuts[src[0]]
-	if o.kind == 0 {
+	if o.kind == 0 || (o.kind == 2 && !stream) {
 		return errors.New("invalid character")
 	}
 	// every delivery decodes to freshly allocated objects
@@ -92,6 +104,9 @@ func verifMkOut(mod int, rich bool, max int) verifPOut {
 		return verifPOut{kind: 0}
 	}
 	o := verifPOut{kind: 1}
+	if rt.Bool("trailingBytes") {
+		o.kind = 2
+	}
 	n := rt.Choice(max + 1)
 	for i := 0; i < n; i++ {
 		null := rt.Bool("null")
@@ -192,6 +207,9 @@ func VerifC18Parsers() {
 	rt.SetClockMs(2000000000000)
 	rt.SetFlag("fold-sprintf", 1)
 	rt.RedirectCall("encoding/json.Unmarshal", verifUnmarshal)
+	rt.RedirectCall("encoding/json.NewDecoder", verifNewDecoder)
+	rt.RedirectCall("(*encoding/json.Decoder).Decode", verifDecode)
+	rt.SetFlag("strict:encoding/json", 1) // any other function of the package: not decided
 	mod := rt.Param("MOD")
 	if rt.Param("RICH") != 0 {
 		verifC18ParseOnly(mod)
@@ -222,8 +240,9 @@ func VerifC18Parsers() {
 			cur = -1
 			rt.Reach("c18p.empty")
 		} else {
-			err := h.Handle([]byte{byte(id), '[', ']'})
-			if verifPOuts[id].kind == 0 {
+			verifCurSrc = []byte{byte(id), '[', ']'}
+			err := h.Handle(verifCurSrc)
+			if verifPOuts[id].kind != 1 {
 				rt.Assert(err != nil, "an undecodable payload returns an error")
 				rt.Reach("c18p.undecodable")
 			} else {
@@ -350,9 +369,10 @@ func verifC18ParseOnly(mod int) {
 	verifPOuts[0] = verifMkOut(mod, true, 2)
 	o := verifPOuts[0]
 	parsers := []PropertyConverter{IsolationRuleJsonArrayParser, FlowRuleJsonArrayParser, CircuitBreakerRuleJsonArrayParser, SystemRuleJsonArrayParser, HotSpotParamRuleJsonArrayParser}
-	v, err := parsers[mod]([]byte{0, '[', ']'})
+	verifCurSrc = []byte{0, '[', ']'}
+	v, err := parsers[mod](verifCurSrc)
 	rt.Reach("c18p.parsed")
-	if o.kind == 0 {
+	if o.kind != 1 {
 		rt.Assert(err != nil && v == nil, "an undecodable payload yields an error and no value")
 		return
 	}
